@@ -851,7 +851,9 @@ def joinLine (st : JState) (line : String) : JState × List String :=
         let impl0 := toks r
         -- `!count=<n>`: `par_join().count()` disagreed with the number of items the same join delivered
         let badCount := impl0.filter (·.startsWith "!count=")
-        let impl := impl0.filter (fun t => !t.startsWith "!count=")
+        let impl := impl0.filter (fun t => !t.startsWith "!")
+        -- `!ff<t>=<i>` / `!fl<t>=<i>`: `par_join().find_first(index ≥ t)` / `.find_last(index ≤ t)` (`-` = nothing found)
+        let findToks := impl0.filter (fun t => t.startsWith "!ff" || t.startsWith "!fl")
         let (st, outC) :=
           if badCount.isEmpty || st.monDead then (st, []) else
           ({ st with mons := st.mons + 1 },
@@ -894,7 +896,20 @@ def joinLine (st : JState) (line : String) : JState × List String :=
                               adj4096 := st.adj4096 + (if adj 4096 then 1 else 0),
                               adj262144 := st.adj262144 + (if adj 262144 then 1 else 0),
                               caseNontrivial := st.caseNontrivial || (o.ms.length ≥ 2 && !ks.isEmpty) }
-          match mo.reason with
+          -- early-exit consumers of the parallel join must agree with the sequential join (its keys, ascending)
+          let findBad : Option String := findToks.findSome? (fun tok =>
+            let last := tok.startsWith "!fl"
+            match ((tok.drop 3).toString).splitOn "=" with
+            | [t, got] =>
+              match t.toNat? with
+              | some t =>
+                let want : Option Nat := if last then (ks.filter (· ≤ t)).getLast? else ks.find? (· ≥ t)
+                let wantS := match want with | some i => toString i | none => "-"
+                if got == wantS then none
+                else some s!"par_join().{if last then "find_last(index ≤ " else "find_first(index ≥ "}{t}) returned {got}, the sequential join gives {wantS}"
+              | none => some s!"unparsable token {tok}"
+            | _ => some s!"unparsable token {tok}")
+          match (match mo.reason with | some x => some x | none => findBad.map (fun w => ("C07", w))) with
           | none => (st, [])
           | some (prop, why) =>
             ({ st with monDead := true, mons := st.mons + 1 },
